@@ -4,6 +4,7 @@ import pickle
 from pathlib import Path
 from wal.version import __version__
 
+from wal.ast_defs import Operator, WList
 from wal.reader import read_wal_sexprs
 from wal.passes import expand, optimize
 
@@ -30,13 +31,30 @@ class Arguments:  # pylint: disable=too-few-public-methods
         return args
 
 
+def may_define_macros(sexpr):
+    '''True if evaluating sexpr can make macros known that the compiler does not know'''
+    if isinstance(sexpr, (WList, list)):
+        if len(sexpr) > 0 and sexpr[0] in [Operator.DEFMACRO, Operator.EVAL_FILE, Operator.REQUIRE]:
+            return True
+        return any(may_define_macros(sub) for sub in sexpr)
+    return False
+
+
 def wal_compile(inname, outname, wal):
     '''Compiles the file inname to outname'''
     with open(inname, 'r', encoding='utf8') as fin:
         code = fin.read()
         compiled = []
+        unknown_macros = False
 
         for sexpr in read_wal_sexprs(code):
+            if unknown_macros:
+                # the operands of a call to a macro the compiler does not know must reach that
+                # macro as written: these forms are left to the passes that run at load time
+                compiled.append(sexpr)
+                continue
+
+            unknown_macros = may_define_macros(sexpr)
             expanded = expand(wal.eval_context, sexpr, parent=wal.eval_context.global_environment)
             optimized = optimize(expanded)
             compiled.append(optimized)
